@@ -2,6 +2,7 @@ package cli
 
 import (
 	"context"
+	"encoding/json"
 	"io"
 	"net/http"
 
@@ -21,8 +22,12 @@ func Verify(ctx context.Context, in io.Reader, key *dsig.PublicKey) error {
 		return wrapError(StatusBadRequest, err)
 	}
 	env := new(gobl.Envelope)
-	if err := jsonyaml.Unmarshal(body, env); err != nil {
-		return wrapError(StatusBadRequest, err)
+	// JSON first: not every JSON string escape survives a YAML parser
+	if jerr := json.Unmarshal(body, env); jerr != nil {
+		env = new(gobl.Envelope)
+		if err := jsonyaml.Unmarshal(body, env); err != nil {
+			return wrapError(StatusBadRequest, err)
+		}
 	}
 	if err := env.Validate(); err != nil {
 		return wrapError(StatusUnprocessableEntity, err)
